@@ -22,7 +22,7 @@ open Blob
 
 /-- **Soundness of `allPathsClose`.** -/
 theorem allPathsClose_sound (c : Cfg) (h : allPathsClose c = true) :
-    ∀ (tr : List Ev) (s' : St) (r : CS), Exec c St.init tr s' (.ret r) → ClosesAll tr := by
+    ∀ (tr : List Ev) (s' : St) (r : CS), Exec c St.init tr s' (.ret r) → ClosesAll tr ∧ WipesAll tr := by
   intro tr s' r hx
   simp only [allPathsClose, Bool.and_eq_true, List.all_eq_true] at h
   have hm := reach_sound hx [St.init] h.1 (by simp)
@@ -30,7 +30,7 @@ theorem allPathsClose_sound (c : Cfg) (h : allPathsClose c = true) :
   simp only [Bool.not_eq_true'] at hp
   have hf := exec_fold hx
   subst hf
-  exact closesAll_of_fold tr St.init hp.1 hp.2
+  exact ⟨closesAll_of_fold tr St.init hp.1 hp.2, wipesAll_of_fold tr St.init hp.1 hp.2⟩
 
 /-- non-vacuity: the skeleton `state = blobCreate(); if (state == 0) return ERR; use; blobClose; return OK`
 has a path with trace `[allocOk 0, use 0, close 0]`, passes the checker, and the variant that
@@ -48,6 +48,12 @@ example : Exec (Cfg.seqs [.alloc 0, .ifnull 0 (.ret (.err 110)) .skip, .atom [.u
 example : allPathsClose (Cfg.seqs [.alloc 0, .ifnull 0 (.ret (.err 110)) .skip, .atom [.use 0], .atom [.close 0], .ret .ok]) = true := by decide
 example : allPathsClose (Cfg.seqs [.alloc 0, .ifnull 0 (.ret (.err 110)) .skip, .ite 0 (.ret (.err 109)) .skip, .atom [.close 0], .ret .ok]) = false := by decide
 example : allPathsClose (Cfg.seqs [.alloc 0, .ifnull 0 (.ret (.err 110)) .skip, .atom [.free 0], .ret .ok]) = false := by decide
+/-- raw block (memAlloc): wipe then free on every exit / one exit frees without the wipe / wipe only -/
+example : allPathsClose (Cfg.seqs [.atom [.rawOk 0, .rawFail 0], .ifnull 0 (.ret (.err 110)) .skip,
+    .ite 0 (Cfg.seqs [.atom [.wipe 0], .atom [.free 0], .ret (.err 521)]) .skip, .atom [.wipe 0], .atom [.free 0], .ret .ok]) = true := by decide
+example : allPathsClose (Cfg.seqs [.atom [.rawOk 0, .rawFail 0], .ifnull 0 (.ret (.err 110)) .skip,
+    .ite 0 (Cfg.seqs [.atom [.free 0], .ret .code]) .skip, .atom [.wipe 0], .atom [.free 0], .ret .ok]) = false := by decide
+example : allPathsClose (Cfg.seqs [.atom [.rawOk 0, .rawFail 0], .ifnull 0 (.ret (.err 110)) .skip, .atom [.wipe 0], .ret .ok]) = false := by decide
 
 /-- `memWipe` overwrites: inside `[p, p+n)` the memory after the wipe does not depend on the
 memory before it (for every start value of the hidden counter). -/
